@@ -183,6 +183,7 @@ type StInfo struct {
 }
 
 func (e *ParserData) AddStModify(op string, text string) {
+	text = strings.TrimRightFunc(text, unicode.IsSpace) // 不含表达式之后被吞掉的空白
 	e.WriteCode(typeStModify, StInfo{op, text})
 }
 
